@@ -1570,14 +1570,19 @@ func bindInitCase(c *core.Case, ws bool, origin jid.JID, replyKind string, assig
 	location := origin.Domain()
 	// some servers omit to (and a few from) in their header: the session keeps
 	// the addresses it was created with
-	hdrTo, hdrFrom := origin.String(), location.String()
-	switch c.Rand.Intn(6) {
+	hdrTo, hdrFrom, hdrExtra := origin.String(), location.String(), ""
+	switch c.Rand.Intn(7) {
 	case 0, 1:
 		hdrTo = ""
 		c.Count("bind_initiator_header_omits_to", 1)
 	case 2:
 		hdrFrom = ""
 		c.Count("bind_initiator_header_omits_from", 1)
+	case 3:
+		// ... or send the attribute with nothing in it, which names nobody
+		// either: the session still is who it was created as
+		hdrTo, hdrExtra = "", " to=''"
+		c.Count("bind_initiator_header_with_empty_to", 1)
 	}
 	c.Sample(map[string]any{"part": "bind-initiator", "ws": ws, "origin": origin.String(), "reply": replyKind, "assigned": assigned.String()})
 	var request []byte
@@ -1632,7 +1637,7 @@ func bindInitCase(c *core.Case, ws bool, origin jid.JID, replyKind string, assig
 		return ""
 	}
 	peer := hspeer.NewPeer(
-		hspeer.Step{Want: []string{first(ws)}, Reply: hspeer.Say(hspeer.Header(hspeer.HeaderOpts{WS: ws, From: hdrFrom, To: hdrTo, ID: "p1"}) + hspeer.Features(ws, `<bind xmlns='`+hspeer.NSBind+`'/>`))},
+		hspeer.Step{Want: []string{first(ws)}, Reply: hspeer.Say(hspeer.Header(hspeer.HeaderOpts{WS: ws, From: hdrFrom, To: hdrTo, ID: "p1", ExtraAttr: hdrExtra}) + hspeer.Features(ws, `<bind xmlns='`+hspeer.NSBind+`'/>`))},
 		hspeer.Step{Want: []string{"iq"}, Reply: reply},
 	)
 	conn := bufconn.NewScripted(peer.Script())
@@ -1888,6 +1893,10 @@ func bindRecv(c *core.Case) {
 		c.Violate("hdr:bind:reply-jid", "callback chose %q, the reply assigns %q", chosen, got)
 	case mode == "default" && (!sameJID(got.Bare(), client.Bare()) || got.Resourcepart() == ""):
 		c.Violate("hdr:bind:reply-jid", "client %q was assigned %q (want its bare address plus a fresh resource)", client, got)
+	case mode == "default" && (got.Resourcepart() == client.Resourcepart() || (reqRes != "" && got.Resourcepart() == reqRes)):
+		// (a 64-bit random identifier that happens to equal a name the client
+		// supplied is not a coincidence)
+		c.Violate("hdr:bind:reply-jid:not-fresh", "client %q (requested resource %q) was assigned %q: the default is a fresh random resource, not one the client named in its stream header or request", client, reqRes, got)
 	default:
 		c.Count("bind_replies_correct", 1)
 	}
